@@ -487,6 +487,14 @@ def cfi_layout(kind="one"):
             {"blk": "b2", "at": 2, "dirs": [(".cfi_endproc", [])]},
         ]
         return spec
+    if kind == "then-plain":
+        # a procedure over b0+b1 that ends exactly where b2 begins; b2 (another function) has no CFI at all
+        spec = text_layout("jcc:s0", annots=False)
+        spec["cfi"] = [
+            {"blk": "b0", "at": 0, "dirs": [(".cfi_startproc", []), (".cfi_def_cfa_offset", [16])]},
+            {"blk": "b1", "at": 3, "dirs": [(".cfi_def_cfa_offset", [8]), (".cfi_endproc", [])]},
+        ]
+        return spec
     if kind == "split":
         spec = mixed_layout()
         spec["annots"] = []
@@ -568,6 +576,11 @@ def cfi_shapes(tier):
             spec = cfi_layout(kind)
             spec["mods"] = copy.deepcopy(mods)
             out.append(("cfi-%s/%s" % (kind, mods_name(mods)), spec))
+    for mods in ([], [ins("b2", 0, "cfi:.cfi_undefined 3")], [ins("b1", 3, "cfi:.cfi_undefined 3")], [ins("b2", 1, "cfi:.cfi_undefined 3")],
+                 [ins("b2", 0, CFI_PATCH)], [ins("b2", 0, "mov")], [dele("b1", 2, 3), ins("b2", 0, "cfi:.cfi_undefined 3")]):
+        spec = cfi_layout("then-plain")
+        spec["mods"] = copy.deepcopy(mods)
+        out.append(("cfi-then-plain/%s" % mods_name(mods), spec))
     data_mods = [[], [dele("b0", 0, 2)], [dele("b2", 0, 2)], [dele("b0", 0, 2, proxy=True)], [dele("b2", 0, 2, proxy=True)],
                  [dele("b0", 0, 2, proxy=True), dele("b2", 0, 2, proxy=True)], [dele("b2", 1, 2)], [dele("b1", 0, 2)],
                  [ins("b2", 2, "cfi:.cfi_undefined 3")], [ins("b2", 1, "mov")], [ins("b0", 2, "mov")],
